@@ -119,9 +119,9 @@ def gen_case(rng, idx, tier):
     lits = [rng.randrange(len(BAD_LITERALS)) for _ in range(3)] + [-1 - rng.randrange(len(GOOD_LITERALS)) for _ in range(2)]
     mutated = []
     # invalid constructor data derived from the valid vector
-    for _ in range(3):
-        how = rng.choice(["swap", "dropend", "addend", "overmult", "tail", "degree"])
-        mutated.append([how, rng.randrange(64)])
+    for _ in range(8):
+        how = rng.choice(["swap", "dropend", "addend", "overmult", "tail", "degree", "transpose", "transpose", "replace", "replace", "reverse-part"])
+        mutated.append([how, rng.randrange(10**6)])
     return {"U": lib.enc(U), "numtype": nt, "literals": lits, "mutated": mutated, "ops": [gen_op(rng) for _ in range(nops)]}
 
 
@@ -379,6 +379,23 @@ def run_case(case, ctx):
             deg = p + [1, -1, 2][r % 3]
             if deg < 0:
                 deg = p + 1
+        elif how == "transpose":
+            # any two positions holding different values (e.g. an interior knot moved inside a clamped end block)
+            i, j = r % len(V), (r // 97) % len(V)
+            if V[i] == V[j]:
+                continue
+            V[i], V[j] = V[j], V[i]
+        elif how == "replace":
+            i = r % len(V)
+            pool_ = sorted(set(V)) + [V[0] - 1, V[-1] + 1, (V[0] + V[-1]) / 2]
+            new_ = pool_[(r // 97) % len(pool_)]
+            if new_ == V[i]:
+                continue
+            V[i] = new_
+        elif how == "reverse-part":
+            i = r % len(V)
+            j = i + 2 + (r // 97) % 3
+            V[i:j] = V[i:j][::-1]
         else:
             continue
         try:
@@ -386,6 +403,10 @@ def run_case(case, ctx):
         except Exception:
             bad = True
         o = call(KnotVector, V, deg) if deg is not None else call(KnotVector, V)
+        if not bad:
+            ctx.count("steps_accept")
+            if ctx.check(o.ok, f"rejects-valid:constructor:{o.exc_name}", f"KnotVector({lib.short(V)}) (still well formed after '{how}') rejected: {o.brief()}"):
+                ctx.check(lib_list(o.value) == V, "wrong-result:constructor", "constructed vector differs from its data")
         if bad:
             ctx.count("steps_reject")
             if o.ok:
